@@ -193,10 +193,13 @@ Feature: Runner should support a --dry-run option
           Scenario: U1
             Given a step passes ... untested
             When a step is undefined ... undefined
+            Then a step fails ... untested
 
           Scenario: U2 fails
             Given a step is undefined ... undefined
             When a step passes ... untested
+            And a step fails ... untested
+            Then a step is undefined ... undefined
         """
       But the command output should contain:
         """
